@@ -234,7 +234,7 @@ def shrink_candidates(case):
                 c['comps'][i].pop('aggregate', None)
             yield c
     # knobs
-    for k, v in (('trace', 'none'), ('stall_p', 0.0), ('preempt_p', 0.0), ('launch_delay', 5.0), ('workers', None)):
+    for k, v in (('trace', 'none'), ('pool_delay_p', 0.0), ('stall_p', 0.0), ('preempt_p', 0.0), ('launch_delay', 5.0), ('workers', None)):
         if case['knobs'].get(k) != v:
             c = copy.deepcopy(case)
             c['knobs'][k] = v
@@ -464,7 +464,25 @@ def oracle_c02(nodes, ev, outcomes, states_end, states_settled, stop, viol, rec,
         stuck = sorted(n for n, s in states_end.items() if s not in FINAL and nodes[n]['stage'] in stages_run)
         stuck_states = {n: states_end[n] for n in stuck}
         shape = classify_hang(nodes, ev, stuck_states)
-        V('termination:%s' % shape, {'stop': stop, 'stuck': stuck_states})
+        detail = {'stop': stop, 'stuck': stuck_states}
+        if not stuck_states:
+            # every component is final, yet the stage loop does not return: some final state was never observed by
+            # finishedCheck() (the component is not in comp_done)
+            observed = set(e[3] for e in ev if e[2] == 'finishedCheck')
+            cur_stage = max(stages_run) if stages_run else 0
+            unobserved = sorted(n for n in nodes if nodes[n]['stage'] <= cur_stage and n not in observed
+                                and states_end.get(n) in FINAL)
+            if unobserved:
+                sub = set()
+                for n in unobserved:
+                    evs = [e for e in ev if e[3] == n]
+                    restarted = any(e[2] == 'restart' and (e[4] or {}).get('code') == 'RestartInitiated' for e in evs)
+                    stopped = any(e[2] == 'finish' and (e[4]['state'] == 'running' or not e[4].get('via_pm')) for e in evs)
+                    sub.add('stopped-while-restarting' if (restarted and stopped) else
+                            ('after-stop' if stopped else ('after-restart' if restarted else 'other')))
+                shape = 'final-state-never-observed:%s' % '+'.join(sorted(sub))
+                detail['unobserved'] = {n: states_end.get(n) for n in unobserved}
+        V('termination:%s' % shape, detail)
         return
     # 1. exactly one final state, stable
     for n, nd in nodes.items():
@@ -641,7 +659,20 @@ def classify_hang(nodes, ev, stuck):
             elif restarted:
                 shapes.add('postmortem-stuck:after-restart')
             elif stopped:
-                shapes.add('postmortem-stuck:after-stop')
+                # stop of a running component: finish() checks the state, subscribes to its own POSTMORTEM notification,
+                # then kills the engine. If the thread is descheduled between the check and the subscription long enough
+                # for the engine to die on its own *and* for that to be published, the notification is missed - the
+                # recorded gap between the finish() call and its engine.kill() tells that case apart
+                fin = [e for e in evs if e[2] == 'finish' and (e[4]['state'] == 'running' or not e[4].get('via_pm'))]
+                gap = None
+                if fin:
+                    # the kill issued by that very finish() call: first engine.kill() on the same thread after it
+                    kills = [e for e in evs if e[2] == 'engine-kill' and e[0] > fin[0][0]
+                             and e[4].get('thr') == fin[0][4].get('thr')]
+                    own_exit = [e for e in evs if e[2] == 'exit' and e[0] > fin[0][0]]
+                    if kills and own_exit:
+                        gap = (kills[0][1] - fin[0][1] > 1.0) and kills[0][0] > own_exit[0][0]
+                shapes.add('postmortem-stuck:after-stop-stalled-inside-finish' if gap else 'postmortem-stuck:after-stop')
             elif 'submit' in kinds and 'postMortemCheck' not in kinds:
                 shapes.add('postmortem-stuck:notification-never-delivered')
             else:
